@@ -8,8 +8,8 @@ COQ_TARGETS = ['Props/Properties_C19.vo']
 PROPS_FILES = ['Props/Properties_C19.v']
 SHRINK_FROM = 2
 THEOREMS = ['C19_tx', 'C19_tx_exact']
-ENGINES = [dict(name='bdat', c_sources=['bdat_h.c'], extract='Extract/Extract_bdat.v', driver='bdat_driver.ml',
-                accepts=lambda c: c.startswith('aa ') or c.startswith('bb '), libs=())]
+ENGINES = [dict(name='bdat', c_sources=['bdat_h.c', 'bdat_rx.c', 'bdat_net.c'], extract='Extract/Extract_bdat.v', driver='bdat_driver.ml',
+                accepts=lambda c: c.startswith('aa ') or c.startswith('bb '))]
 RULE = ('tx cases = (chunk size, message[, number of positive intermediate replies]) for the real send_bdat: every message of <= 4 '
         '(thorough: <= 8) octets over {a, CR, LF} x chunk sizes 16..20 (thorough 16..27); random messages of 0..400 octets made of '
         'lines with CRLF / bare LF / bare CR / empty lines / CR runs, chunk sizes 16..64, 98..102, 998..1002, 1024, 9999..10001, 32768; '
@@ -99,19 +99,134 @@ def gen_tx(rng, tier):
     return out
 
 
+# ---------------------------------------------------------------- receiving side
+def _cfg(q=0, wf=0xffff, rf=0xff, mb=0xffff):
+    return '%02x%04x%02x%08x' % (q, wf, rf, mb)
+
+
+def _cmds(lst):
+    return ''.join('%04x%02x%04x' % (sz, 1 if last else 0, pre) for sz, last, pre in lst) or '-'
+
+
+def _rx_data(rng, n):
+    out = bytearray()
+    mode = rng.choice(['lines', 'lines', 'dense', 'plain'])
+    while len(out) < n:
+        if mode == 'dense':
+            out.append(rng.choice(b'\r\n\r\na'))
+        elif mode == 'plain':
+            out.append(rng.choice(b'abc \r\n') if rng.random() < 0.05 else 0x61)
+        else:
+            for _ in range(rng.choice([0, 0, 1, 3, 10, 30, 70])):
+                out.append(rng.choice(b'abcxyz .-') if rng.random() < 0.95 else rng.randrange(256))
+            out += rng.choice([b'\r\n', b'\r\n', b'\r\n', b'\n', b'\r', b'\r\r\n', b'\r\n\r\n', b'\n\r', b''])
+    return bytes(out[:n])
+
+
+def _partition(rng, n, k):
+    cuts = sorted(rng.randrange(0, n + 1) for _ in range(k))
+    sizes, prev = [], 0
+    for c in cuts + [n]:
+        sizes.append(c - prev); prev = c
+    return sizes
+
+
+def gen_rx(rng, tier):
+    out = []
+    RS = 1024                      # CHUNK_READ_SIZE of the harness build (INCOMING_CHUNK_SIZE=1)
+    # every short stream over {a, CR, LF}, every split into two chunks, LAST on the second or on an empty third
+    maxl = 4 if tier == 'quick' else 6
+    for l in range(0, maxl + 1):
+        for m in itertools.product(b'a\r\n', repeat=l):
+            m = bytes(m)
+            for c in range(0, l + 1):
+                out.append('bb %s %s %s' % (_cfg(), _cmds([(c, 0, 0), (l - c, 1, 0)]), R.hx(m)))
+                if tier != 'quick' or rng.random() < 0.3:
+                    out.append('bb %s %s %s' % (_cfg(), _cmds([(c, 0, 1), (l - c, 0, 0), (0, 1, 0)]), R.hx(m)))
+    n = 900 if tier == 'quick' else 25000
+    for i in range(n):
+        r = rng.random()
+        if r < 0.55:
+            ln = rng.randrange(0, 120)
+        elif r < 0.85:
+            ln = rng.choice([RS - 2, RS - 1, RS, RS + 1, 2 * RS - 3, 2 * RS - 2, 2 * RS - 1, 2 * RS]) + rng.randrange(0, 3)
+        else:
+            ln = rng.randrange(0, 3500)
+        data = bytearray(_rx_data(rng, ln))
+        # aim: CR / CRLF / LF right at the buffer boundaries of smtp_bdat (RS-1 octets per read)
+        if ln > RS and rng.random() < 0.7:
+            for b in (RS - 1, 2 * (RS - 1)):
+                p = b + rng.randrange(-2, 2)
+                pat = rng.choice([b'\r\n', b'\r\n', b'\r', b'\r\r', b'\n', b'\r\n\r\n'])
+                if 0 <= p and p + len(pat) <= ln:
+                    data[p:p + len(pat)] = pat
+        if ln and rng.random() < 0.3:
+            data[-1] = 13
+        data = bytes(data)
+        k = rng.choice([0, 0, 1, 1, 2, 3, 6])
+        sizes = _partition(rng, ln, k)
+        if rng.random() < 0.3 and ln > 2:
+            # cut right behind / before a CR
+            idx = [j for j in range(ln) if data[j] == 13]
+            if idx:
+                c = rng.choice(idx) + rng.randrange(0, 2)
+                sizes = [c, ln - c]
+        cmds = [(sz, 0, 0) for sz in sizes]
+        shape = rng.random()
+        if shape < 0.55:
+            cmds[-1] = (cmds[-1][0], 1, 0)
+        elif shape < 0.8:
+            cmds.append((0, 1, 0))
+        elif shape < 0.9:
+            j = rng.randrange(len(cmds)); cmds[j] = (cmds[j][0], 1, 0)      # LAST in the middle, more commands follow
+        # else: no LAST at all
+        cmds = [(sz, last, rng.choice([0, 0, 1, 2, 5, 100, 1001, 2000]) if rng.random() < 0.5 else 0) for sz, last, _ in cmds]
+        cuts = b''
+        cr = rng.random()
+        if cr < 0.3:
+            cuts = bytes(rng.choice([1, 1, 2, 3, 5, 8, 255]) for _ in range(rng.randrange(1, 60)))
+        elif cr < 0.4:
+            cuts = bytes([rng.choice([1, 2, 200])]) * rng.randrange(1, 400)
+        q, wf, rf, mb = 0, 0xffff, 0xff, 0xffff
+        stream = data
+        f = rng.random()
+        if f < 0.04: q = 1
+        elif f < 0.10: wf = rng.randrange(0, 8)
+        elif f < 0.14: rf = rng.randrange(0, 6)
+        elif f < 0.19: mb = rng.randrange(0, max(1, ln + 2))
+        elif f < 0.23 and ln: stream = data[:rng.randrange(0, ln)]          # the peer hangs up early
+        elif f < 0.26: stream = data + _rx_data(rng, rng.randrange(1, 40))   # pipelined octets behind the data
+        out.append('bb %s %s %s %s' % (_cfg(q, wf, rf, mb), _cmds(cmds), R.hx(stream), R.hx(cuts)))
+    return out
+
+
 def gen_cases(engine, rng, tier):
-    return gen_tx(rng, tier)
+    return gen_tx(rng, tier) + gen_rx(rng, tier)
 
 
 def nontrivial(case, c_out):
     f = c_out.split()
+    if case.startswith('bb '):
+        return f[:1] == ['OK'] and f.count('C0') >= 2 and any(t.startswith('E') for t in f)
     return len(f) >= 5 and f[0] == 'OK'
 
 
 def distribution(results):
     d = {'tx_1_chunk': 0, 'tx_2_3_chunks': 0, 'tx_4plus_chunks': 0, 'tx_abort': 0, 'tx_barecr_logged': 0, 'crash_or_other': 0}
+    d.update({'rx_delivered': 0, 'rx_failed': 0, 'rx_died': 0, 'rx_no_last': 0, 'rx_multi_buffer': 0, 'rx_cr_held_at_end': 0})
     for r in results:
         f = r['c'].split()
+        if r['case'].startswith('bb '):
+            if not f or f[0] != 'OK':
+                d['crash_or_other'] += 1
+            elif 'DIED' in f: d['rx_died'] += 1
+            elif any(t.startswith('E') and t[1:].isdigit() for t in f): d['rx_delivered'] += 1
+            elif any(t.startswith('C') and t not in ('C0',) for t in f): d['rx_failed'] += 1
+            else: d['rx_no_last'] += 1
+            cm = r['case'].split()[2]
+            if cm != '-' and any(int(cm[i:i + 4], 16) >= 1024 for i in range(0, len(cm), 10)): d['rx_multi_buffer'] += 1
+            if 'Q0d' in f: d['rx_cr_held_at_end'] += 1
+            continue
         if not r['case'].startswith('aa '):
             continue
         if not f or f[0] != 'OK':
